@@ -166,4 +166,14 @@ theorem C04_source_finish (b : Bar) (now : Nat) (f : Finish) :
   | abandon => exact ⟨("Abandon", false, false, false, false), by decide, rfl, by simp [Bar.finishUsing, applyArm]⟩
   | abandonWithMessage m => exact ⟨("AbandonWithMessage", true, false, true, false), by decide, rfl, by simp [Bar.finishUsing, applyArm]⟩
 
+/-- **the source as regenerated**: the three statements of `BarState::draw` and the body of `Drop for BarState` that the bar model
+transcribes are in the source as transcribed — a draw of a finished bar is always forced (`Bar.draw`: `force || b.finished`; the
+zombie accounting of a MultiProgress relies on it: what a finished bar has stored is what is painted), nothing is formatted for a
+hidden finished bar, the frame goes to the target's `draw`; a dropped bar that is not finished is finished by a clone of its
+stored behaviour and only then reported as a zombie. (The seeds C02-8 / C02-9 delete the first statement, C04-8 / C04-9 replace
+the clone by `mem::take`: either makes this theorem false before any stream runs.) -/
+theorem C04_source_draw_and_drop :
+    Generated.drawForcesFinished = true ∧ Generated.drawSkipsHidden = true ∧ Generated.drawEndsWithDraw = true ∧
+    Generated.dropAsTranscribed = true := by decide
+
 end IndicatifModel.Rows
